@@ -28,6 +28,34 @@ mod rotator;
 mod skipper;
 mod unroller;
 
+/// Verification hook (only with `--cfg pest_parser_pest_verif`): the individual optimizer passes,
+/// callable one by one. Adds no behaviour; the modules themselves stay private.
+#[cfg(pest_parser_pest_verif)]
+pub mod verif {
+    use super::*;
+
+    pub use super::concatenator::concatenate;
+    pub use super::factorizer::factor;
+    pub use super::lister::list;
+    pub use super::rotator::rotate;
+    pub use super::unroller::unroll;
+
+    /// The skipper pass (needs the map of all rules).
+    pub fn skip(rule: Rule, rules: &[Rule]) -> Rule {
+        super::skipper::skip(rule, &super::to_hash_map(rules))
+    }
+
+    /// Conversion of a fully rewritten rule to an `OptimizedRule`.
+    pub fn to_optimized(rule: Rule) -> OptimizedRule {
+        super::rule_to_optimized_rule(rule)
+    }
+
+    /// The restorer pass (needs the map of all optimized rules).
+    pub fn restore_on_err(rule: OptimizedRule, rules: &[OptimizedRule]) -> OptimizedRule {
+        super::restorer::restore_on_err(rule, &super::to_optimized_hash_map(rules))
+    }
+}
+
 /// Takes pest's ASTs and optimizes them
 pub fn optimize(rules: Vec<Rule>) -> Vec<OptimizedRule> {
     let map = to_hash_map(&rules);
